@@ -243,7 +243,8 @@ def c20_cases(tier):
             yield "document for is_one_of=%s specify_by_url=%s" % (one_of, by_url), thunk
 
     def headers():
-        flags = ["--header", "X-Tag: one", "--header", "  X-Other :  z y  ", "--header", "X-Tag: two", "--header", "X-Colon: a:b", "--authorization", "tok123"]
+        flags = ["--header", "X-Tag: one", "--header", "  X-Other :  z y  ", "--header", "X-Tag: two", "--header", "X-Colon: a:b", "--authorization", "tok123",
+                 "--header", "Cache-Control: no-cache, no-store", "--header", "X-Route: eu, fallback:us"]
         res, seen, out = run("ok", flags)
         if res["exit"] != 0 or len(seen) != 1:
             return "introspect-schema with headers: exit %s, %d requests: %s" % (res["exit"], len(seen), res["stderr"][-160:])
@@ -255,6 +256,8 @@ def c20_cases(tier):
             return "header `  X-Other :  z y  ` reaches the server as %s" % vals("x-other")
         if vals("x-colon") != ["a:b"]:
             return "header `X-Colon: a:b` (split at the FIRST colon) reaches the server as %s" % vals("x-colon")
+        if vals("cache-control") != ["no-cache, no-store"] or vals("x-route") != ["eu, fallback:us"] or vals("fallback"):
+            return "a header value containing commas is not carried as ONE pair split at the first colon: cache-control %s, x-route %s, fallback %s" % (vals("cache-control"), vals("x-route"), vals("fallback"))
         if vals("authorization") != ["Bearer tok123"]:
             return "--authorization tok123 reaches the server as %s" % vals("authorization")
         return None
